@@ -58,3 +58,71 @@ Proof.
     assert (0 < / ratio) by (apply Rinv_0_lt_compat; exact Hr).
     rewrite plus_IZR. generalize (Zceil_ub (/ ratio)). change (IZR 1) with 1. lra.
 Qed.
+
+(** The constructor of SincFixedOut establishes the invariant (interpolator length even, as every
+    interpolator of the crate provides: lengths are multiples of 8). *)
+From Rubato.Proofs Require Import SincOutR.
+
+Theorem so_ctor_wf_R ratio maxrel env ilen inbr chunk nch s :
+  (1 <= chunk)%Z -> (0 <= nch)%Z -> (8 <= ilen)%Z -> (ilen mod 2 = 0)%Z -> nbr_ok (se_type env) inbr ->
+  @sinc_out_new CR SR ratio maxrel env ilen inbr chunk nch = inr (RSincOut env s) ->
+  exists blen, so_wf env blen s /\ ratio = uratio s /\ uL s = ilen.
+Proof.
+  intros Hc Hn HL Hev Hnb. unfold sinc_out_new.
+  destruct (validate_ratios_sinc ratio maxrel) eqn:E; [discriminate|].
+  destruct (validate_sinc_R _ _ E) as [Hr Hm].
+  cbv zeta.
+  remember (@so_new_needed_input_size CR chunk ilen ratio) as N0 eqn:EN0.
+  remember (@so_new_buffer_channel_length CR ilen maxrel N0) as B eqn:EB.
+  intros H; injection H as <-.
+  exists B. split; [|split; reflexivity].
+  assert (Ht : 0 < / ratio) by (apply Rinv_0_lt_compat; exact Hr).
+  assert (HC1 : 1 <= IZR chunk) by (apply IZR_le; lia).
+  assert (Hx : 0 < IZR chunk * / ratio) by nra.
+  assert (Hz : (0 <= Zceil (IZR chunk * / ratio))%Z).
+  { assert (-1 < Zceil (IZR chunk * / ratio))%Z; [|lia]. apply lt_IZR.
+    generalize (Zceil_ub (IZR chunk * / ratio)). change (IZR (-1)) with (-1). lra. }
+  assert (Hq : (ilen = 2 * (ilen ÷ 2))%Z).
+  { rewrite Z.quot_div_nonneg by lia. rewrite (Z.div_mod ilen 2) at 1 by lia. lia. }
+  assert (HN0 : N0 = (Zceil (IZR chunk * / ratio) + ilen ÷ 2)%Z).
+  { rewrite EN0. unfold so_new_needed_input_size. cbv [c_to_usize cceil cdiv c_of_Z CR cnum].
+    rewrite Ztrunc_IZR_id. unfold Rdiv. rewrite Z.max_r by exact Hz. reflexivity. }
+  assert (HB : (2 * N0 + 2 * ilen <= B)%Z).
+  { rewrite EB. unfold so_new_buffer_channel_length. cbv [c_to_usize cmul cadd c_of_Z c_lit CR cnum].
+    assert (H0 : 0 <= IZR N0) by (apply IZR_le; lia).
+    assert (Hy : IZR (2 * N0) <= (maxrel + 1 / 1) * IZR N0) by (rewrite mult_IZR; replace (1 / 1) with 1 by field; change (IZR 2) with 2; nra).
+    rewrite Ztrunc_floor by (rewrite mult_IZR in Hy; change (IZR 2) with 2 in Hy; lra).
+    assert (2 * N0 <= Zfloor ((maxrel + 1 / 1) * IZR N0))%Z by (apply Zfloor_lub; exact Hy). lia. }
+  clear EN0 EB.
+  cbv [set_SincFixedOut_max_relative_ratio set_SincFixedOut_target_ratio set_SincFixedOut_resample_ratio_original
+       set_SincFixedOut_resample_ratio set_SincFixedOut_last_index set_SincFixedOut_chunk_size set_SincFixedOut_max_chunk_size
+       set_SincFixedOut_nbr_channels set_SincFixedOut_current_buffer_fill set_SincFixedOut_needed_input_size
+       set_SincFixedOut_interpolator_len set_SincFixedOut_interpolator_nbr_sincs default_SincFixedOut
+       SincFixedOut_nbr_channels SincFixedOut_chunk_size SincFixedOut_max_chunk_size SincFixedOut_needed_input_size
+       SincFixedOut_last_index SincFixedOut_current_buffer_fill SincFixedOut_resample_ratio SincFixedOut_resample_ratio_original
+       SincFixedOut_target_ratio SincFixedOut_max_relative_ratio SincFixedOut_interpolator_len SincFixedOut_interpolator_nbr_sincs].
+  assert (Hq4 : (4 <= ilen ÷ 2)%Z) by lia.
+  assert (HqR : 4 <= IZR (ilen ÷ 2)) by (change 4 with (IZR 4); apply IZR_le; exact Hq4).
+  assert (HLR : IZR ilen = 2 * IZR (ilen ÷ 2)) by (rewrite Hq at 1; rewrite mult_IZR; reflexivity).
+  constructor; unfold uC, uCmax, unch, uratio, uli, uL, unbr, ufill, uneeded; cbn [as_ctl as_buf as_mask];
+    cbn [SincFixedOut_nbr_channels SincFixedOut_chunk_size SincFixedOut_max_chunk_size SincFixedOut_needed_input_size
+         SincFixedOut_last_index SincFixedOut_current_buffer_fill SincFixedOut_resample_ratio SincFixedOut_target_ratio
+         SincFixedOut_interpolator_len SincFixedOut_interpolator_nbr_sincs].
+  - lia.
+  - exact Hn.
+  - unfold chans. rewrite repeat_length. reflexivity.
+  - unfold chans. rewrite repeat_length. reflexivity.
+  - unfold chans.
+    replace B with (zlen (@zeros CR SR B)) at 1 by (rewrite zlen_zeros; lia).
+    exact (@all_len_repeat CR SR (@zeros CR SR B) (Z.to_nat nch)).
+  - exact Hr.
+  - reflexivity.
+  - exact HL.
+  - exact Hnb.
+  - unfold so_new_last_index. cbv [copp c_of_Z CR cnum]. lra.
+  - unfold so_new_last_index. cbv [copp c_of_Z CR cnum].
+    replace (- IZR (ilen ÷ 2) + IZR chunk * / ratio + IZR ilen) with (IZR chunk * / ratio + IZR (ilen ÷ 2)) by lra.
+    rewrite Zceil_plus_Z. exact HN0.
+  - lia.
+  - lia.
+Qed.
